@@ -46,6 +46,13 @@ structure Os where
   dirs : Path → Bool := fun _ => false
   log : List Ev := []
 
+/-- file-system update: `p` now holds `b` -/
+def setFile (files : Path → Option Bytes) (p : Path) (b : Bytes) : Path → Option Bytes :=
+  fun q => if q = p then some b else files q
+
+/-- contents of `p` (a missing file reads as empty) -/
+def Os.content (os : Os) (p : Path) : Bytes := (os.files p).getD []
+
 /-- descriptors currently open (opened through this model and not yet closed) -/
 def Os.fdKeys (os : Os) : List Fd := os.fds.map (·.1)
 
@@ -75,7 +82,7 @@ def sysOpen (os : Os) (p : Path) : Os × Option Fd :=
   else
     let fd := allocFd os.fdKeys c
     ({ os with fds := (fd, p) :: os.fds,
-               files := fun q => if q = p then some ((os.files p).getD []) else os.files q,
+               files := setFile os.files p (os.content p),
                log := os.log ++ [.open p (some fd)] }, some fd)
 
 /-- `flock(fd, LOCK_EX | LOCK_NB)` -/
@@ -96,8 +103,7 @@ def sysPwrite (os : Os) (fd : Fd) (off : Nat) (data : Bytes) : Os × Option Nat 
     | none => ({ os with log := os.log ++ [.pwrite fd off data.length none] }, none)
     | some w =>
       ({ os with
-          files := if w = 0 then os.files
-                   else fun q => if q = p then some (writeAt ((os.files p).getD []) off (data.take w)) else os.files q,
+          files := if w = 0 then os.files else setFile os.files p (writeAt (os.content p) off (data.take w)),
           log := os.log ++ [.pwrite fd off data.length (some w)] }, some w)
 
 /-- `close(fd)`: the descriptor is released even when an error is reported -/
